@@ -1,11 +1,15 @@
 #!/bin/sh
-# usage: eval_one_seed.sh <seed-name>   (applies seeded/<name>/patch.diff to /repo, runs the quick check of its property, reverts)
+# usage: eval_one_seed.sh <seed-name> [property]
+# Applies seeded/<name>/patch.diff to a scratch worktree of /repo (never to /repo itself), runs the
+# quick check of the seed's property there (VERIF_REPO), records what was reported, removes the worktree.
 cd /verif
-n=$1; prop=$(echo $n | cut -c1-3); d=seeded/$n
-[ -n "$(git -C /repo status --short)" ] && { echo "/repo not clean"; exit 2; }
-git -C /repo apply /verif/$d/patch.diff || { echo "$n: patch does not apply"; exit 2; }
-out=$(bin/gocv check -property $prop -tier quick 2>&1)
-git -C /repo checkout -- .
+n=$1; prop=${2:-$(echo $n | cut -c1-3)}; d=seeded/$n
+wt=/var/tmp/seedeval_$n
+git -C /repo worktree remove --force $wt 2>/dev/null
+git -C /repo worktree add -q --detach $wt HEAD || exit 2
+if ! git -C $wt apply /verif/$d/patch.diff; then echo "$n: patch does not apply"; git -C /repo worktree remove --force $wt; exit 2; fi
+out=$(VERIF_EVIDENCE=/var/tmp/seedeval_evidence VERIF_REPO=$wt bin/gocv check -property $prop -tier quick 2>&1)
+git -C /repo worktree remove --force $wt
 echo "$out" | grep -E "VIOLATION|ENGINE-ERROR" | sed 's/replay=[^ ]* //' | cut -c1-220 > $d/detection.txt
 echo "$out" | tail -1 >> $d/detection.txt
 if grep -q VIOLATION $d/detection.txt; then echo "$n: DETECTED ($(grep -c VIOLATION $d/detection.txt) obligations)"; else echo "$n: MISSED"; fi
